@@ -454,3 +454,59 @@ harness2!(se_difference__a_e, se_algebra, K_A, K_E, Alg::Difference);
 harness2!(se_difference__d_e, se_algebra, K_D, K_E, Alg::Difference);
 harness2!(se_symdiff__c_f, se_algebra, K_C, K_F, Alg::SymDiff);
 harness2!(se_ops__e_c, se_algebra, K_E, K_C, Alg::Ops);
+
+const END: usize = usize::MAX;
+/// HashSet::drain_filter: predicate = answer mask over the call index (concrete), the filter is
+/// driven `j` steps and then dropped (END = driven to exhaustion).
+fn se_drain_filter(sh: Shape, p: (u16, usize)) {
+    let (pm, j) = p;
+    let mut s = set_of(sh, 1);
+    let q: u8 = kani::any();
+    let in_q = has(&s, &q);
+    let n = s.len();
+    let l0 = old_len(s.verif_map());
+    let j = if j == END { n + 1 } else { j };
+    let mut calls = 0usize;
+    let mut calls_q = 0usize;
+    let mut hit_q = false;
+    let mut yielded = 0usize;
+    let mut yielded_q = 0usize;
+    {
+        let mut df = s.drain_filter(|x| {
+            let hit = (pm >> (calls & 15)) & 1 == 1;
+            calls += 1;
+            if *x == q {
+                calls_q += 1;
+                hit_q = hit;
+            }
+            hit
+        });
+        let mut steps = 0usize;
+        while steps < j {
+            if let Some(x) = df.next() {
+                if x == q {
+                    yielded_q += 1;
+                }
+                yielded += 1;
+                assert!(yielded <= n, "[C09] HashSet::drain_filter yielded more elements than the set held");
+            }
+            steps += 1;
+        }
+    }
+    assert!(yielded_q <= 1 && calls_q == if in_q { 1 } else { 0 } && calls == n, "[C09] HashSet::drain_filter did not call the predicate exactly once per element");
+    assert!(yielded_q == 0 || hit_q, "[C09] HashSet::drain_filter yielded an element the predicate rejected");
+    let sq = scan(s.verif_map(), &q);
+    assert!(sq.val.is_some() == (in_q && !hit_q), "[C09] after HashSet::drain_filter the set is not exactly the rejected elements");
+    assert!(s.contains(&q) == (in_q && !hit_q), "[C13] contains() disagrees after drain_filter");
+    assert!(s.len() == n - (pm & ((1u16 << n) - 1)).count_ones() as usize, "[C09] len() after HashSet::drain_filter is not the number of rejected elements");
+    post_freed_if_empty(s.verif_map(), l0);
+    post_inv(s.verif_map(), &sq);
+    kani::cover!(l0 > 0 && !is_split(s.verif_map()), "cls: drain_filter emptied and freed the old table");
+    kani::cover!(in_q && yielded_q == 1, "cls: witness element yielded");
+    kani::cover!(true, "reach: end of harness");
+    core::mem::forget(s);
+}
+harness!(se_drain_filter__s8_4a_m0110_end, se_drain_filter, S8_4A, (0b0110, END));
+harness!(se_drain_filter__s8_4a_m1100_j1, se_drain_filter, S8_4A, (0b1100, 1));
+harness!(se_drain_filter__s8_4a_m1011_j0, se_drain_filter, S8_4A, (0b1011, 0));
+harness!(se_drain_filter__s8m0_4a_m10_j0, se_drain_filter, S8M0_4A, (0b10, 0));
